@@ -342,6 +342,13 @@ func GenIdent(r *Rand, cfg *telemetry.UploadConfig) Ident {
 // valid UTF-8 (set per case; the reports show such names as encoding/json renders them, see JSONName)
 var StrayBytes bool
 
+// StrayString: the stray byte sequence of the case (ONE kind per case: the rendering of names
+// as JSON keys, U+FFFD per stray byte, then stays one-to-one on the names of the case)
+var StrayString = "\xff"
+
+// StrayKinds: the stray sequences to choose from
+var StrayKinds = []string{"\xff", "\x80", "\xc3", "\xe2\x82", "\xfe"}
+
 // JSONName: a name as it appears as a JSON object key: encoding/json writes every byte that is
 // not part of a valid UTF-8 sequence as U+FFFD.
 func JSONName(s string) string {
@@ -366,7 +373,7 @@ func mutateName(r *Rand, s string) string {
 		// the approved name with one or two stray bytes (not valid UTF-8) somewhere
 		for n := 1 + r.Intn(2); n > 0; n-- {
 			i := r.Intn(len(s) + 1)
-			s = s[:i] + Pick(r, []string{"\xff", "\x80", "\xc3", "\xe2\x82", "\xfe"}) + s[i:]
+			s = s[:i] + StrayString + s[i:]
 		}
 		return s
 	}
